@@ -98,3 +98,42 @@ Theorem xform_icc_bytes_sufficient_with_overhead : gen_chunk_overhead = icc_chun
 Proof.
   intros H1 H2 x k V Hk. unfold size_term_bytes. rewrite H1, H2. exact (xform_icc_bytes_core x k V Hk).
 Qed.
+
+(* ---- the tree as it is now (45743c1): tj3TransformBufSize counts 18 bytes per chunk *)
+Lemma tree_counts_chunk_overhead : gen_chunk_overhead = icc_chunk_overhead /\ gen_inst_chunk = icc_max_data'.
+Proof. split; reflexivity. Qed.
+
+Fixpoint sum_list (l : list Z) : Z := match l with nil => 0 | cons p t => p + sum_list t end.
+(* an APP2 chunk carrying p bytes of the profile: FF E2, length, "ICC_PROFILE\0", sequence number, count, data *)
+Definition app2_chunk_bytes (p : Z) : Z := icc_chunk_overhead + p.
+Definition copied_marker_bytes (ps : list Z) : Z := sum_list (List.map app2_chunk_bytes ps).
+
+Lemma copied_marker_bytes_eq ps : copied_marker_bytes ps = sum_list ps + icc_chunk_overhead * Z.of_nat (length ps).
+Proof.
+  unfold copied_marker_bytes. induction ps as [|p t IH]; [reflexivity|].
+  cbn [List.map sum_list length]. rewrite IH, Nat2Z.inj_succ. unfold app2_chunk_bytes. lia.
+Qed.
+
+(* all bytes of ICC markers tj3Transform writes: the source chunks it copies, as they are, or the instance profile
+   cut into 65519-byte chunks by jpeg_write_icc_profile *)
+Definition icc_marker_bytes_of (x : xsetup) (ps : list Z) : Z :=
+  (if saved_icc x && gen_copies_app2 (copy_opt x) then copied_marker_bytes ps else 0) +
+  (if gen_writes_inst (x_inst x) (icc_copied x) then x_inst x + icc_chunk_overhead * inst_chunks (x_inst x) else 0).
+
+(* tj3TransformBufSize = tj3JPEGBufSize of the destination image + the ICC term *)
+Definition transform_bufsize (base : Z) (x : xsetup) (ps : list Z) : Z := base + size_term_bytes x (Z.of_nat (length ps)).
+
+(* the size function covers its per-image part (headers + entropy-coded data: see C13_bufsize_sufficient_when /
+   _worstcase_refuted) plus every byte of every ICC marker written, for any chunking of the source profile *)
+Theorem transform_bufsize_covers_icc : forall base x ps, valid_setup x -> x_src x = sum_list ps ->
+  base + icc_marker_bytes_of x ps <= transform_bufsize base x ps.
+Proof.
+  intros base x ps V Hsum. unfold transform_bufsize.
+  destruct tree_counts_chunk_overhead as (H1 & H2).
+  pose proof (xform_icc_bytes_sufficient_with_overhead H1 H2 x (Z.of_nat (length ps)) V ltac:(lia)) as H.
+  assert (E : icc_marker_bytes_of x ps = icc_bytes_written x (Z.of_nat (length ps))).
+  { unfold icc_marker_bytes_of, icc_bytes_written, icc_written, chunks_written, copied_bytes, inst_bytes.
+    rewrite copied_marker_bytes_eq, Hsum.
+    destruct (saved_icc x && gen_copies_app2 (copy_opt x)); destruct (gen_writes_inst (x_inst x) (icc_copied x)); lia. }
+  rewrite E. lia.
+Qed.
